@@ -14,7 +14,7 @@ Import ListNotations.
 
 Definition entries : list (str -> table -> option table) :=
   [entry_c20] ++
-  [entry_c07].
+  [entry_c07; entry_c07b].
 
 Fixpoint dispatch (l : list (str -> table -> option table)) (name : str) (t : table) : table :=
   match l with
